@@ -115,6 +115,22 @@ Proof.
   destruct S as (r & ->). reflexivity.
 Qed.
 
+Theorem from_file_path_base_ok p u : bytes p -> from_file_path p = FOk u -> base_ok u = true.
+Proof.
+  intros Hb H. destruct (path_is_absolute p) eqn:Ha.
+  - rewrite (from_file_path_spec p Hb Ha) in H. inversion H; subst u.
+    destruct (url_path_of_shape (kept p) (kept_bytes p Hb)) as [S Q]. exact (file_rec_base_ok _ S Q).
+  - rewrite (proj1 (from_file_path_rel p Ha)) in H. discriminate.
+Qed.
+
+Theorem from_directory_path_base_ok p u : bytes p -> from_directory_path p = FOk u -> base_ok u = true.
+Proof.
+  intros Hb H. destruct (path_is_absolute p) eqn:Ha.
+  - rewrite (from_directory_path_spec p Hb Ha) in H. inversion H; subst u.
+    destruct (dir_path_of_shape (kept p) (kept_bytes p Hb)) as [S Q]. exact (file_rec_base_ok _ S Q).
+  - rewrite (proj2 (from_file_path_rel p Ha)) in H. discriminate.
+Qed.
+
 (* ---------- the reach relation ---------- *)
 Section Reach.
 Variable dbg : bool.
